@@ -303,7 +303,7 @@ func c02F4Round(c *ctx, bits uint64) {
 }
 
 func runC02(c *ctx) {
-	c.Rule = "reference-encoder oracle: exhaustive 1- and 2-byte formats (every value, single and packed), F4 bit patterns (quick: every 4099th + exponent edges; thorough: all 2^32), boundary+random I4/I8/U4/U8/F8, float64->F4 rounding, generated trees (all 14 formats, 1/2/3 length bytes), messages in every completeness state, trees that reach the encoder through the decoder from non-minimal length fields and non-0/1 booleans; non-trivial = encoded length > 2 bytes, distinct by hash of reference bytes (sweeps: distinct by construction) Also (rounds 5-8): trees that reach the encoder through the decoder (non-minimal lengths, non-0/1 booleans), through the SML parser (60-digit literals at rounding midpoints; header keywords glued to comments) and through several fills of one template; floats built from integer Go values up to the int64/uint64 extremes; +0/-0 neighbours in lists. Also (round 9): partial fills of one node with 2-8 variables (every kind, four map orders): nothing is encoded until the rest is filled; texts of 16,777,215 / 16,777,216 characters that arrive by a fill."
+	c.Rule = "reference-encoder oracle: exhaustive 1- and 2-byte formats (every value, single and packed), F4 bit patterns (quick: every 4099th + exponent edges; thorough: all 2^32), boundary+random I4/I8/U4/U8/F8, float64->F4 rounding, generated trees (all 14 formats, 1/2/3 length bytes), messages in every completeness state, trees that reach the encoder through the decoder from non-minimal length fields and non-0/1 booleans; non-trivial = encoded length > 2 bytes, distinct by hash of reference bytes (sweeps: distinct by construction) Also (rounds 5-8): trees that reach the encoder through the decoder (non-minimal lengths, non-0/1 booleans), through the SML parser (60-digit literals at rounding midpoints; header keywords glued to comments) and through several fills of one template; floats built from integer Go values up to the int64/uint64 extremes; +0/-0 neighbours in lists. Also (round 9): partial fills of one node with 2-8 variables (every kind, four map orders): nothing is encoded until the rest is filled; texts of 16,777,215 / 16,777,216 characters that arrive by a fill. Also (round 10): an incomplete list of 1..4097 elements is asked for its bytes (none), alone and nested, and a complete list of that width is encoded right after it."
 	c.Assume = []string{"reference encoder internal/ref (self-tested against the repository's literal test vectors)"}
 
 	// (a) exhaustive small formats
